@@ -283,6 +283,9 @@ func runC01(c *Ctx) {
 	})
 	c.R.Analysed["accept_paths"] = npaths
 	checkHandshakeMatcher(c)
+	for _, d := range Drivers(c.P) {
+		checkSentTableWriters(c, d)
+	}
 }
 
 // checkHandshakeMatcher is R01.8: the SACK handshake state (initial sequence / ack numbers every later match is relative to)
@@ -486,4 +489,126 @@ func checkRejectSilent(c *Ctx, d Driver) {
 		}
 	}
 	c.R.Floor("R01.7:"+d.Name, n, 5)
+}
+
+// checkSentTableWriters is R01.9: "was this probe emitted" is what an entry of the sent-probe table means to the matcher, so an
+// entry may only be created on the emission path. Every element write of the driver's sent-probe table (map update, indexed
+// store, append) must sit in a function that is reached from SendProbe and from nowhere else; constructors may only install an
+// empty table (make / nil).
+func checkSentTableWriters(c *Ctx, d Driver) {
+	R := c.R
+	shared := sharedFields(c.P, d)
+	tables := map[string]bool{}
+	st, _ := d.Named.Underlying().(*types.Struct)
+	if st == nil {
+		return
+	}
+	for i := 0; i < st.NumFields(); i++ {
+		f := st.Field(i)
+		if !shared[f.Name()] {
+			continue
+		}
+		switch f.Type().Underlying().(type) {
+		case *types.Map, *types.Slice:
+			tables[f.Name()] = true
+		}
+	}
+	R.Floor("R01.9:sent-table-fields:"+d.Name, len(tables), 1)
+	isTableField := func(v ssa.Value) (string, bool) {
+		fa, ok := v.(*ssa.FieldAddr)
+		if !ok {
+			return "", false
+		}
+		pt, ok := fa.X.Type().Underlying().(*types.Pointer)
+		if !ok || !types.Identical(pt.Elem(), d.Named) {
+			return "", false
+		}
+		n := core.FieldName(fa)
+		return n, tables[n]
+	}
+	loadOfTable := func(v ssa.Value) (string, bool) {
+		if ld, ok := v.(*ssa.UnOp); ok {
+			return isTableField(ld.X)
+		}
+		return "", false
+	}
+	type wsite struct {
+		fn    *ssa.Function
+		in    ssa.Instruction
+		field string
+	}
+	var writers []wsite
+	sp := c.P.SSAPkgs[d.Pkg]
+	for _, f := range c.P.ModFuncs {
+		if sp == nil || core.FuncPkg(f) != sp.Pkg {
+			continue
+		}
+		for _, b := range f.Blocks {
+			for _, in := range b.Instrs {
+				switch x := in.(type) {
+				case *ssa.MapUpdate:
+					if _, zero := x.Value.(*ssa.Const); zero {
+						continue // a zero-valued entry is what the matchers already read as "not sent"
+					}
+					if n, ok := loadOfTable(x.Map); ok {
+						writers = append(writers, wsite{f, in, n})
+					}
+				case *ssa.Store:
+					if ia, ok := x.Addr.(*ssa.IndexAddr); ok {
+						if _, zero := x.Val.(*ssa.Const); zero {
+							continue
+						}
+						if n, ok := loadOfTable(ia.X); ok {
+							writers = append(writers, wsite{f, in, n})
+						}
+					}
+					if n, ok := isTableField(x.Addr); ok {
+						// installing an empty table is not an entry; append is
+						if call, isCall := x.Val.(*ssa.Call); isCall {
+							if bi, isB := call.Common().Value.(*ssa.Builtin); isB && bi.Name() == "append" {
+								writers = append(writers, wsite{f, in, n})
+							}
+						}
+					}
+				}
+			}
+		}
+	}
+	R.Floor("R01.9:sent-table-writes:"+d.Name, len(writers), 1)
+	cg := c.P.CallGraph()
+	for i, w := range writers {
+		key := fmt.Sprintf("%s#sent-table-write[%s/%d]", core.FuncName(w.fn), w.field, i)
+		// backward closure over module callers, not expanding SendProbe
+		seen := map[*ssa.Function]bool{}
+		bad := ""
+		var visit func(f *ssa.Function)
+		visit = func(f *ssa.Function) {
+			if f == nil || seen[f] || bad != "" {
+				return
+			}
+			seen[f] = true
+			if f == d.SendProbe {
+				return
+			}
+			if f.Parent() != nil {
+				visit(f.Parent())
+				return
+			}
+			n := cg.Nodes[f]
+			ncallers := 0
+			if n != nil {
+				for _, e := range n.In {
+					if e.Caller.Func != nil && core.InModule(e.Caller.Func) {
+						ncallers++
+						visit(e.Caller.Func)
+					}
+				}
+			}
+			if ncallers == 0 {
+				bad = core.FuncName(f)
+			}
+		}
+		visit(w.fn)
+		R.Check(bad == "", "R01.9", key, w.in.Pos(), core.FuncName(w.fn), "sent-probe table entry is created only on the SendProbe path", "an entry of the sent-probe table "+w.field+" is created on a path that does not come from SendProbe (reached from "+bad+"): the matcher treats every entry as an emitted probe, so a reply quoting a probe that was never sent can fill a hop")
+	}
 }
